@@ -199,11 +199,22 @@ def k3_artefacts(actual: str, ref: str) -> bool:
     try:
         with fakefs.patched(fs, cf, bc):
             fc = FilesComparison(verbose=False, tmp_dir=TMP)
+            if P.get('enc'):
+                opts['encoding'] = P['enc']
             code, msgs = fc.check_string_against_file(actual, '/ref/r.txt', **opts)
     finally:
         FilesComparison.diff_marker = saved_marker
     if fs.files.get('/ref/r.txt') != ref or fs.deleted():
         return False
+    if P.get('enc'):
+        # an explicit encoding governs every text file the assertion reads or writes (the reference, the raw
+        # actual, the post-processed pair): anything else cannot hold "exactly the actual content"
+        for path_, enc_ in fs.read_encodings:
+            if enc_ != P['enc']:
+                return False
+        for path_ in fs.written():
+            if fs.encodings.get(path_) != ('w', P['enc']):
+                return False
     if code == 0:
         return fs.written() == []
     for w in fs.written():
@@ -280,20 +291,26 @@ def _obs():
                       param={'nla': nla, 'nle': nle, 'nc': nc, 'split': split}, timeout=to,
                       tier=tier, lift='lift_reconstruction',
                       stubs=['diff_marker -> constant (both sides get the same marker)', 'add_failures captured']))
-    for rem, ign, pre, nc, tier, to in ((0, 0, 0, 2, 'quick', 300), (1, 0, 0, 2, 'quick', 300), (1, 1, 0, 2, 'quick', 300),
-                                        (0, 0, 1, 2, 'quick', 300), (1, 1, 1, 3, 'thorough', 3000),
-                                        (0, 0, 0, 3, 'thorough', 3000)):
+    for rem, ign, pre, nc, enc, tier, to in ((0, 0, 0, 2, None, 'quick', 300), (1, 0, 0, 2, None, 'quick', 300),
+                                             (1, 1, 0, 2, None, 'quick', 300), (0, 0, 1, 2, None, 'quick', 300),
+                                             (1, 1, 0, 2, 'latin-1', 'quick', 300),
+                                             (1, 1, 1, 3, None, 'thorough', 3000),
+                                             (0, 0, 0, 3, None, 'thorough', 3000),
+                                             (0, 0, 1, 2, 'latin-1', 'thorough', 3000)):
         obs.append(Ob('K3', 'k3_artefacts', 'string-vs-file: a pass writes nothing; a failure writes only under '
                       'tmp_dir, names a command whose files all exist, and actual-raw-* holds the actual lines; the '
-                      'reference file is untouched and nothing is deleted',
+                      'reference file is untouched and nothing is deleted'
+                      + ('; every text file is read and written in the requested encoding' if enc else ''),
                       'actual, reference text: any strings len<=%d; remove_lines=%s ignore_substrings=%s preprocess=%s'
-                      % (nc, ['!'] if rem else None, ['#'] if ign else None, 'drop-first-line' if pre else None),
-                      param={'rem': rem, 'ign': ign, 'pre': pre, 'nc': nc}, timeout=to, tier=tier, lift='lift_artefacts',
-                      stubs=['fakefs', 'diff_marker -> constant']))
+                      '%s' % (nc, ['!'] if rem else None, ['#'] if ign else None, 'drop-first-line' if pre else None,
+                              '; encoding=%r' % enc if enc else ''),
+                      param={'rem': rem, 'ign': ign, 'pre': pre, 'nc': nc, 'enc': enc}, timeout=to, tier=tier,
+                      lift=None if enc else 'lift_artefacts', stubs=['fakefs', 'diff_marker -> constant']))
     return obs
 
 
 OBLIGATIONS = _obs()
 ASSUMPTIONS = ['texts are compared as line lists; trailing empty lines are not significant (lines are written joined by a newline and the comparison drops a trailing empty line itself)',
                'fakefs contract (vp/doubles/fakefs.py)']
-OUTSIDE = ['encodings on disk; the diff command itself; DataFrame artefacts']
+OUTSIDE = ['byte-level effect of encodings on disk (only which encoding each open() is given is checked); the diff '
+           'command itself; DataFrame artefacts']
